@@ -24,6 +24,8 @@ PROP = "C15"
 SHARD = 8
 KINDS = {"main": dict(imports="From Coq Require Import ZArith String.\nFrom SS Require Import Base M_Slice M_Greenlet.",
                       type="glet_case", mismatch="gmismatches", nontrivial="gcount_nontrivial"),
+         "ghist": dict(imports="From Coq Require Import ZArith String.\nFrom SS Require Import Base M_Slice M_Greenlet.",
+                       type="ghist_case", mismatch="ghist_mismatches", nontrivial="ghist_nontrivial"),
          "gb": dict(imports="From SS Require Import Base M_Greenback.", type="gb_case",
                     mismatch="gb_mismatches", nontrivial="gb_nontrivial")}
 RULE = ("parked greenlet chains (0..3 nested greenlets, call depth 1..3 in each) x asker chains (0..3 nested greenlets, "
@@ -32,7 +34,11 @@ RULE = ("parked greenlet chains (0..3 nested greenlets, call depth 1..3 in each)
         "child/descendant view, dead, unstarted, running / suspended in another thread). non-trivial = some query yields "
         ">= 2 frames or the other-thread error. kind gb: trio task with greenback alternation depth n = 0..3 (thorough 0..6), "
         "extract(task.coro) from outside the task and from inside it j = 0..2 (thorough 0..3) greenlets below its sync code; "
-        "compared with M_Greenback.gb_extract in Coq and with the shadow call stack directly")
+        "compared with M_Greenback.gb_extract in Coq and with the shadow call stack directly; also with every await_ given a "
+        "non-coroutine awaitable (adapt_awaitable / __await__ frames), both hosts. kind ghist: ONE greenlet object inspected in "
+        "2..4 rounds -- started by a C-level runner (list(map(cb,..)), sorted(key=cb), functools.reduce) or a Python entry "
+        "function, callback at call depths 0..3, parked and extracted from its parent's loop frame (outside) or extracting "
+        "itself (inside), driver in the main or a nested greenlet")
 CONFIG = dict(
     coq=["C15"], level="proof",
     claim=("Coq theorems about the executable model of unwrap_greenlet composed with the C04 model of unwrap_stackslice "
@@ -52,7 +58,10 @@ CONFIG = dict(
                    "(C15_greenback_composes_with_extract_iter), not for all n; "
                    "the for-all-n theorems C15_greenback_n_* are about the specialised walk gb_extract"],
     timeout={"quick": 900, "thorough": 3600},
-    NOTES="greenback: specialised model M_Greenback instead of an M_Frames hook table (M_Frames.elab does not see next_inner).",
+    NOTES="CPython artifact seen while building the awaitable scenarios (not a stackscope defect): when throw() passes through an "
+          "__await__ generator delegating (yield from) to a non-generator iterator, that generator's frame is not linked into "
+          "f_back, so it is absent from the true stack and from extract(); those shapes are checked in extra_legs against the "
+          "call stack minus that frame and are not part of M_Greenback. greenback: specialised model M_Greenback instead of an M_Frames hook table (M_Frames.elab does not see next_inner).",
 )
 
 
@@ -62,11 +71,35 @@ ASKER = ["p", "pp", "Gp", "pGp", "GpGp", "pGpGp", "GpGpGp", "gGpc", "Gm", "pGpm"
 
 def make_inputs(tier, seed):
     rng = random.Random(seed * 7919 + 15)
+    # histories: one greenlet object inspected at several moments (C-level runners: the outermost
+    # Python frame of the greenlet changes between inspections)
+    dseqs = [[0, 1, 0], [2, 0]] if tier == "quick" else [[0, 1, 0], [2, 0], [0, 0, 0, 0], [1, 3, 2]]
+    for runner in ("cmap", "csorted", "creduce", "py"):
+        for mode in ("outside", "inside"):
+            for depths in dseqs:
+                for nest in (0, 1):
+                    if tier == "quick" and (nest + len(depths) + seed) % 2:
+                        continue
+                    yield dict(_kind="ghist", runner=runner, mode=mode, depths=depths, nest=nest, base="thread")
     nmax, jmax = (3, 2) if tier == "quick" else (6, 3)
     for n in range(nmax + 1):
         yield {"_kind": "gb", "inside": False, "n": n, "j": 0}
         for j in range(jmax + 1):
             yield {"_kind": "gb", "inside": True, "n": n, "j": j}
+    # await_ given non-coroutine awaitables (greenback wraps them in adapt_awaitable), both hosts
+    for n in range(1, nmax + 1):
+        for host in ("trio", "asyncio"):
+            yield {"_kind": "gb", "host": host, "awt": True, "inside": False, "n": n, "j": 0}
+            for j in ([0, 1] if tier == "quick" else range(jmax + 1)):
+                yield {"_kind": "gb", "host": host, "awt": True, "inside": True, "n": n, "j": j}
+        # with a throw()-resumed level only at the top level n (its coroutine is awaited directly by the
+        # task function): when throw() passes THROUGH an __await__ generator that delegates to a
+        # non-generator iterator, CPython does not link that generator's frame into the frame chain
+        # (gen_throw calls the delegate's throw() without resuming the generator), so the __await__
+        # frame is really absent from f_back; those shapes are checked in extra_legs only
+        for inside in (False, True):
+            yield {"_kind": "gb", "host": "asyncio", "awt": True, "inside": inside, "n": n, "j": 0,
+                   "err": n, "how": ["cancel", "timeout"][(n + seed) % 2]}
     # asyncio-hosted tasks; at level err the coroutine is resumed by throw() (cancellation caught and
     # uncancelled / asyncio.timeout expiring and handled) and then goes on down
     for n in range(nmax + 1):
@@ -164,7 +197,7 @@ def _classes():
             self.dead = self.greenlet.greenlet(lambda: None)
             self.dead.switch()
             self.unstarted = self.greenlet.greenlet(lambda: None)
-            if self.desc["susp"]:
+            if self.desc.get("susp"):
                 self.sub = Sub(self, self.desc["susp"])
                 self.sub.fns[0](self.sub)
 
@@ -185,6 +218,7 @@ def _classes():
             tg += [("sib", self.sib), ("dead", self.dead), ("unstarted", self.unstarted)]
             b = self.blocked
             tg += [("t_running", b.g_run), ("t_susp", b.g_susp), ("t_main", b.g_main)]
+            tg += [(nm, x) for nm, x in self.extra_targets() if x is not cur]
             self.targets = tg
             # ids for chains hanging off gr_frame of targets that are not yet known
             nxt = 400
@@ -213,6 +247,9 @@ def _classes():
                     par = [self.ids.get(id(pf), 3998) if pf is not None else None]
                 self.gdesc.append(dict(name=name, frame=(own[0] if own else None), active=bool(x),
                                        current=x is cur, parent=par, own=own[::-1]))
+
+        def extra_targets(self):
+            return []
 
         def internal_chain(self):
             recs = sorted(set(self.records))
@@ -247,9 +284,15 @@ def _classes():
 def run_case(desc):
     if desc.get("_kind") == "gb":
         return gb_scenario(desc["inside"], desc["n"], desc["j"], host=desc.get("host", "trio"),
-                           err=desc.get("err"), how=desc.get("how"))
+                           err=desc.get("err"), how=desc.get("how"), awt=bool(desc.get("awt")))
+    if desc.get("_kind") == "ghist":
+        return run_ghist(desc)
     c = _classes()(desc)
     c.run(desc["base"])
+    return _obs15(c)
+
+
+def _obs15(c):
     internal = c.internal_chain()
     cur = [(500 + k, m, sd) for k, (_, m, sd) in enumerate(internal)] + c.frame_names(c.segs[0])
     return {
@@ -264,6 +307,121 @@ def run_case(desc):
         "results": [c.encode(r) for r in c.results],
         "problems": c.problems,
     }
+
+
+GHIST_SRC = {
+    "outside": """def loop(ctx):
+    while ctx.rounds_left():
+        ctx.advance()
+        ctx.prepare(sys._getframe(0))
+        for q in ctx.queries:
+            ctx.begin(q)
+            try:
+                r = q[0](*q[1], **q[2])
+            except BaseException as e:
+                r = e
+            ctx.end(q, r)
+        ctx.finish_round()
+""",
+    "inside": """def probe(ctx):
+    ctx.prepare(sys._getframe(0))
+    for q in ctx.queries:
+        ctx.begin(q)
+        try:
+            r = q[0](*q[1], **q[2])
+        except BaseException as e:
+            r = e
+        ctx.end(q, r)
+    ctx.finish_round()
+""",
+}
+
+
+def _rec(k, f):
+    if k == 0:
+        return f()
+    return _rec(k - 1, f)
+
+
+def run_ghist(desc):
+    """The SAME greenlet object inspected at several moments.  The target greenlet runs a callback
+    once per round at call depth depths[i] -- started either by a C-level runner (list(map(cb, ..)),
+    sorted(key=cb), functools.reduce: its outermost Python frame is a different frame every round)
+    or by a plain Python entry function.  mode outside: it parks in the callback and is extracted
+    from its parent's loop frame; mode inside: the callback itself extracts (it is the current
+    greenlet), together with every other greenlet in sight."""
+    import functools
+    C = _classes()
+
+    class H(C):
+        def __init__(self, desc):
+            super().__init__(dict(desc, asker="p", susp=""))
+            self.desc = desc
+            self.rounds = []
+            self.target = None
+            glb = {"sys": sys, "__name__": "vuser.ghist"}
+            exec(compile(GHIST_SRC[desc["mode"]], "<ghist:%s>" % desc["mode"], "exec"), glb)
+            self.fn = glb["loop" if desc["mode"] == "outside" else "probe"]
+
+        def extra_targets(self):
+            return [("hist", self.target)] if self.target is not None else []
+
+        def rounds_left(self):
+            return len(self.rounds) < len(self.desc["depths"])
+
+        def finish_round(self):
+            self.rounds.append(_obs15(self))
+            self.results, self.records = [], []
+
+        def advance(self):
+            self.target.switch()
+
+        def make_target(self):
+            g = self.greenlet
+            depths = self.desc["depths"]
+            if self.desc["mode"] == "outside":
+                def action():
+                    g.getcurrent().parent.switch()
+            else:
+                def action():
+                    self.fn(self)
+
+            def cb(i):
+                return _rec(depths[i], action)
+            k = len(depths)
+            runner = self.desc["runner"]
+            if runner == "cmap":
+                run = functools.partial(list, map(cb, range(k)))
+            elif runner == "csorted":
+                run = functools.partial(sorted, range(k), key=lambda i: (cb(i), i)[1])
+            elif runner == "creduce":
+                run = functools.partial(functools.reduce, lambda acc, i: cb(i), range(k), None)
+            else:
+                def run():
+                    for i in range(k):
+                        cb(i)
+            return g.greenlet(run)
+
+        def body(self):
+            self.target = self.make_target()
+            if self.desc["mode"] == "outside":
+                self.fn(self)
+                self.target.switch()            # let it finish
+            else:
+                self.target.switch()
+
+        def entry(self):
+            self.setup_foreign()
+            try:
+                if self.desc["nest"]:
+                    self.greenlet.greenlet(self.body).switch()
+                else:
+                    self.body()
+            finally:
+                self.teardown_foreign()
+    h = H(desc)
+    h.run(desc["base"])
+    return {"rounds": h.rounds}
 
 
 def _glet(g):
@@ -288,6 +446,12 @@ def _gres(r):
 def coq_case(desc, obs):
     if desc.get("_kind") == "gb":
         return gb_coq(desc, obs)
+    if desc.get("_kind") == "ghist":
+        return clist(_gcase(o) for o in obs["rounds"])
+    return _gcase(obs)
+
+
+def _gcase(obs):
     qs = clist("(%s, %s)" % (_glet(g), _gres(r)) for g, r in zip(obs["glets"], obs["results"]))
     return "(%s,\n %s)" % (_c04._world(obs), qs)
 
@@ -297,8 +461,22 @@ def direct_oracle(desc, obs):
         msg = gb_oracle(desc, obs)
         return None if msg is None else "greenback task under %s%s, alternation depth %d, extracted from %s: %s" % (
             desc.get("host", "trio"),
-            "" if desc.get("err") is None else " (level %d resumed by throw(): %s)" % (desc["err"], desc["how"]),
+            ("" if desc.get("err") is None else " (level %d resumed by throw(): %s)" % (desc["err"], desc["how"]))
+            + (" (await_ given non-coroutine awaitables)" if desc.get("awt") else ""),
             desc["n"], ("inside, %d greenlet(s) below the task's sync code" % desc["j"]) if desc["inside"] else "outside", msg)
+    if desc.get("_kind") == "ghist":
+        for rnd, o in enumerate(obs["rounds"]):
+            msg = _oracle15(o)
+            if msg:
+                return ("inspection %d of %d of the same greenlet (%s runner, from %s, callback at call depth %d): %s"
+                        % (rnd + 1, len(obs["rounds"]), desc["runner"], desc["mode"], desc["depths"][rnd], msg))
+        if len(obs["rounds"]) != len(desc["depths"]):
+            return "history ended after %d of %d rounds" % (len(obs["rounds"]), len(desc["depths"]))
+        return None
+    return _oracle15(obs)
+
+
+def _oracle15(obs):
     if obs["problems"]:
         return "harness self-check failed: " + "; ".join(obs["problems"])
     if obs["tc"] is None or obs["tc"] < (obs["cur"][-1][0] if obs["cur"] else 0):
@@ -320,10 +498,12 @@ def direct_oracle(desc, obs):
 def classify(desc, obs):
     if desc.get("_kind") == "gb":
         return ["greenback:%s" % ("inside-j%d" % desc["j"] if desc["inside"] else "outside"), "greenback:n=%d" % desc["n"],
-                "greenback:" + desc.get("host", "trio"),
+                "greenback:" + desc.get("host", "trio"), "greenback:awaitable=%s" % bool(desc.get("awt")),
                 "greenback:throw-" + ("none" if desc.get("err") is None else
                                       ("top" if desc["err"] == desc["n"] else "leaf" if desc["err"] == 0 else "middle")),
                 "greenback:Error.send=%d" % sum(1 for _, _, k in obs["frames"] if k == "Error.send")]
+    if desc.get("_kind") == "ghist":
+        return ["ghist:" + desc["runner"], "ghist:" + desc["mode"], "ghist:rounds=%d" % len(obs["rounds"])]
     labs = ["asker-segments=%d" % (1 + len(obs["parents"])), "base:" + desc["base"],
             "parked=%d" % sum(1 for g in obs["glets"] if g["name"].startswith("susp"))]
     for g, r in zip(obs["glets"], obs["results"]):
@@ -332,9 +512,9 @@ def classify(desc, obs):
 
 
 # ------------------------------------------------------------------ greenback
-USER = ("target", "a_level", "s_level", "s_leaf", "nested", "probe")
-BRIDGE = ("await_", "_greenback_shim", "trampoline", "switch", "send", "adapt_awaitable")
-ALLOWED_VISIBLE = ("greenback_shim", "wait")
+USER = ("target", "a_level", "s_level", "s_leaf", "nested", "probe", "__await__")
+BRIDGE = ("await_", "_greenback_shim", "trampoline", "switch", "send")
+ALLOWED_VISIBLE = ("greenback_shim", "wait", "adapt_awaitable")
 
 
 def _frames_of(st):
@@ -348,13 +528,15 @@ def _frames_of(st):
     return out
 
 
-def gb_scenario(inside, n, j, portal=True, host="trio", err=None, how=None):
+def gb_scenario(inside, n, j, portal=True, host="trio", err=None, how=None, awt=False):
     """A task alternating n times between async code (a_level k) and sync code (s_level k)
     through greenback.await_, hosted by trio or asyncio.  Its stack is extracted (extract(<task
     coroutine>)) either from another task while it is parked at level 0 (outside), or from its own
     innermost sync code, j greenlets below it (inside; j = 0: directly).  With err = m (asyncio
     only) the coroutine of level m first waits under a timeout / gets cancelled, handles that --
     i.e. it is resumed by coro.throw() -- and then goes on down without another await of its own.
+    With awt every await_ is given a non-coroutine awaitable (an object whose __await__ is a
+    generator delegating to the coroutine); greenback wraps it in adapt_awaitable().
     Returns the frames (name, hidden, kind), the error and the shadow call stack at that moment."""
     import greenback
     import greenlet
@@ -431,10 +613,21 @@ def gb_scenario(inside, n, j, portal=True, host="trio", err=None, how=None):
         finally:
             shadow.pop()
 
+    class Deferred:
+        def __init__(self, coro):
+            self.coro = coro
+
+        def __await__(self):
+            shadow.append("__await__")
+            try:
+                return (yield from self.coro.__await__())
+            finally:
+                shadow.pop()
+
     def s_level(k):
         shadow.append("s_level")
         try:
-            greenback.await_(a_level(k - 1))
+            greenback.await_(Deferred(a_level(k - 1)) if awt else a_level(k - 1))
         finally:
             shadow.pop()
 
@@ -477,13 +670,17 @@ def gb_scenario(inside, n, j, portal=True, host="trio", err=None, how=None):
             "shadow": box["shadow"]}
 
 
-def gb_oracle(desc, obs):
-    """property text: frames continue through every bridge (= the shadow call stack), the caller's
+def gb_oracle(desc, obs, unlinked_await=None):
+    """unlinked_await = k: the k-th __await__ of the shadow stack is expected to be absent (see
+    extra_legs).  property text: frames continue through every bridge (= the shadow call stack), the caller's
     own frames are present, bridging internals hidden, no error"""
     if obs["error"] is not None:
         return "error %s" % obs["error"]
     vis = [nm for nm, hid, _ in obs["frames"] if not hid]
     user = [nm for nm in vis if nm in USER]
+    if unlinked_await is not None:
+        idx = [i for i, nm in enumerate(obs["shadow"]) if nm == "__await__"][unlinked_await]
+        obs = dict(obs, shadow=obs["shadow"][:idx] + obs["shadow"][idx + 1:])
     if user != obs["shadow"]:
         return "user frames %r, the call stack at that moment is %r" % (user, obs["shadow"])
     bad = [nm for nm in vis if nm in BRIDGE]
@@ -496,13 +693,15 @@ def gb_oracle(desc, obs):
         return "the caller's own frames are missing: innermost visible frame %r" % (vis[-1:] or None)
     if any(nm.startswith("extract") or nm.startswith("unwrap_") for nm, _, _ in obs["frames"]):
         return "stackscope's own frames in the result"
+    if desc.get("awt") and vis.count("adapt_awaitable") != desc["n"]:
+        return "%d adapt_awaitable frames for %d awaitables handed to await_" % (vis.count("adapt_awaitable"), desc["n"])
     if desc["n"] and not any(nm == "await_" and hid for nm, hid, _ in obs["frames"]):
         return "no hidden await_ frame although n=%d" % desc["n"]
     return None
 
 
 _GBK = {"greenback_shim": "FShimCoro", "_greenback_shim": "FShim", "trampoline": "FTramp",
-        "Value.send": "FSend", "Error.send": "FSendE",
+        "Value.send": "FSend", "Error.send": "FSendE", "adapt_awaitable": "FAdapt", "__await__": "FDunder",
         "target": "FTarget", "s_leaf": "FLeaf", "nested": "FNested", "probe": "FProbe", "wait": "FWait",
         "wait_task_rescheduled": "FWTR", "switch": "FSwitch"}
 _GBL = {"a_level": "FA", "s_level": "FS", "await_": "FAwait"}
@@ -524,9 +723,10 @@ def gb_coq(desc, obs):
             ents.append("(FSwitch, false)")          # unknown frame: never produced by the model
     res = ("GErr %s" if obs["error"] is not None else "GOk %s") % clist(ents)
     err = desc.get("err")
-    return "(Build_scenario %s %d %d %s %s, %s)" % (cbool(desc["inside"]), desc["n"], desc["j"],
-                                                    copt(None if err is None else str(err)),
-                                                    cbool(desc.get("host") == "asyncio"), res)
+    return "(Build_scenario %s %d %d %s %s %s, %s)" % (cbool(desc["inside"]), desc["n"], desc["j"],
+                                                       copt(None if err is None else str(err)),
+                                                       cbool(desc.get("host") == "asyncio"),
+                                                       cbool(bool(desc.get("awt"))), res)
 
 
 def extra_legs(tier, seed):
@@ -540,4 +740,22 @@ def extra_legs(tier, seed):
             msg = gb_oracle(d, obs)
             if msg:
                 viol.append({"what": "no-portal task, %r: %s" % (d, msg), "input": d, "observed": obs})
-    return dict(evaluations=n, violations=viol, info={"no_portal_runs": n}, known_reproduced=[])
+    # non-coroutine awaitables with a level below the top resumed by throw(): the __await__ generator
+    # the exception passed through is not in the frame chain (CPython), everything else must be there
+    m = 0
+    for depth in ((1, 2) if tier == "quick" else (1, 2, 3)):
+        for err in range(depth):
+            for inside in (False, True):
+                d = {"inside": inside, "n": depth, "j": 0, "host": "asyncio", "awt": True, "err": err,
+                     "how": ["cancel", "timeout"][(depth + err) % 2]}
+                obs = gb_scenario(inside, depth, 0, host="asyncio", err=err, how=d["how"], awt=True)
+                m += 1
+                # (from outside with err = 0 the level-0 coroutine is suspended again: its chain is walked
+                #  through cr_await / gi_yieldfrom, where the generator is present)
+                msg = gb_oracle(dict(d, awt=False), obs,
+                                unlinked_await=(depth - err - 1) if (inside or err >= 1) else None)
+                if msg:
+                    viol.append({"what": "awaitables + throw() below the top level, %r: %s" % (d, msg), "input": d,
+                                 "observed": obs})
+    return dict(evaluations=n + m, violations=viol,
+                info={"no_portal_runs": n, "awaitable_throw_through_runs": m}, known_reproduced=[])
